@@ -219,6 +219,13 @@ pub use word_to_digit::{
     text2digits, Occurence, Replace, Token,
 };
 
+/// Verification hooks (off by default): expose the crate-private plain-text tokenizer so that an
+/// external monitor can run `find_numbers` on exactly the tokens `replace_numbers_in_text` uses.
+#[cfg(feature = "verif-hooks")]
+pub mod verif_hooks {
+    pub use crate::tokenizer::{tokenize, BasicToken, Tokenize};
+}
+
 /// Get an interpreter for the language represented by the `language_code` ISO code.
 pub fn get_interpreter_for(language_code: &str) -> Option<Language> {
     match language_code {
